@@ -245,6 +245,9 @@ type World struct {
 	// Reentrant adds a container filter that, like the library's own OPTIONS and CORS filters, asks
 	// the container for its registered services while the request is in flight.
 	Reentrant bool
+	// Options installs the container's OPTIONSFilter: OPTIONS requests are answered from the
+	// registration state (computeAllowedMethods reads services and routes).
+	Options bool
 	// OnRoute runs inside every route function (live container only).
 	OnRoute func(routeID int)
 
@@ -286,6 +289,9 @@ func (w *World) newContainer() *restful.Container {
 	c.DoNotRecover(!w.Recover)
 	for i := 0; i < w.Filters; i++ {
 		c.Filter(passFilter(fmt.Sprintf("c%d", i)))
+	}
+	if w.Options {
+		c.Filter(c.OPTIONSFilter)
 	}
 	if w.Reentrant {
 		c.Filter(func(req *restful.Request, resp *restful.Response, chain *restful.FilterChain) {
